@@ -5,6 +5,7 @@ import (
 	"strconv"
 	"sync"
 	"time"
+	"unicode/utf8"
 
 	"github.com/prometheus/client_golang/prometheus"
 )
@@ -451,6 +452,12 @@ func (s *clusterState) ApplyDigest(digest digest) {
 		if _, ok := s.nodes[entry.ID]; ok {
 			continue
 		}
+		// Ignore nodes whose ID is not valid UTF-8. Node IDs are used as
+		// metric label values, which panic on invalid UTF-8, so a malformed
+		// packet must never add such a node.
+		if !utf8.ValidString(entry.ID) {
+			continue
+		}
 		// If we a node has left the cluster and we don't know about it
 		// already, then ignore it. Otherwise nodes will keep being
 		// re-discovered after they left.
@@ -508,6 +515,10 @@ func (s *clusterState) deltaEntry(nodeID string, fromVersion uint64) deltaEntry 
 func (s *clusterState) applyDeltaEntry(entry deltaEntry) {
 	if entry.ID == s.localID {
 		// Discard updates about local node.
+		return
+	}
+	if !utf8.ValidString(entry.ID) {
+		// Discard nodes whose ID is not valid UTF-8 (see ApplyDigest).
 		return
 	}
 
